@@ -22,12 +22,9 @@ IMPORTS = ("From Ford Require Import Base.Str Base.Path Out.Names Out.External O
 THEOREMS = ["C16_roundtrip", "C16_import_export", "C16_target_unique", "C16_target_written_partial",
             "C16_target_written_refuted", "C16_export_exact_partial", "C16_export_exact_refuted_private_listed",
             "C16_export_exact_refuted_public_unlisted", "C16_local_first", "C16_local_first_find_partial",
-            "C16_local_first_find_refuted", "C16_load_errors_contained_partial",
-            "C16_load_errors_contained_refuted_missing", "C16_load_errors_contained_refuted_absolute",
-            "C16_load_errors_contained_refuted_undecodable", "C16_load_errors_contained_refuted_shape",
-            "C16_load_errors_contained_refuted", "C16_tables_fingerprint"]
-REGIONS = {1: "export-follows-display", 2: "missing-modules-json", 3: "wrong-shape-json", 4: "absolute-local-path",
-           5: "undecodable-modules-json", 6: "external-before-local-entity"}
+            "C16_local_first_find_refuted", "C16_load_errors_contained", "C16_load_all_or_nothing",
+            "C16_tables_fingerprint"]
+REGIONS = {1: "export-follows-display", 6: "external-before-local-entity"}
 
 
 def cs(x):
@@ -184,7 +181,7 @@ def load_case(rng, descriptions, force=None):
         elif kind == "abs":
             (d / "modules.json").write_text(text)
             value = str(d.resolve())
-            src = f"(SLocalAbs {cs(value)})"
+            src = f"(SLocal {cs(value)} (LJson {I.coq_json(desc)}))"
         else:
             value = rng.choice(REMOTE_BASES)
             if kind == "remote":
@@ -220,6 +217,55 @@ def load_case(rng, descriptions, force=None):
                   "raw_queries": raw,
                   "description": desc if kind in ("local", "remote", "abs") else None,
                   "queries": [q for q, _ in qs], "answers": [a for _, a in qs], "local": local}
+
+
+def load_seq_case(rng, descriptions, force=None):
+    """several external projects in one run (some of them broken): what is left in the project lists"""
+    n = len(force) if force else rng.choice([2, 2, 3])
+    srcs, externals, payloads, metas = [], {}, {}, []
+    with F.Work() as w:
+        for i in range(n):
+            if force:
+                kind, desc = force[i]["kind"], force[i]["desc"]
+            else:
+                kind = rng.choice(["local", "local", "remote", "missing", "badjson", "undecodable", "urlerror"])
+                desc = rng.choice(descriptions) if (descriptions and rng.random() < 0.4) else G.small_description(rng)
+                if rng.random() < 0.5:
+                    desc = G.mutate_description(rng, desc)
+            text = json.dumps(desc)
+            if not core.is_ascii(text):
+                return None
+            d = w.root / f"ext{i}" / "doc"
+            d.mkdir(parents=True)
+            dirterm = cs(str(d.resolve()))
+            if kind == "local":
+                (d / "modules.json").write_text(text)
+                srcs.append(f"(SLocal {dirterm} (LJson {I.coq_json(desc)}))")
+                externals[f"e{i}"] = f"ext{i}/doc"
+            elif kind == "missing":
+                srcs.append(f"(SLocal {dirterm} LMissing)")
+                externals[f"e{i}"] = f"ext{i}/doc"
+            elif kind == "badjson":
+                (d / "modules.json").write_text('{"modules": [')
+                srcs.append(f"(SLocal {dirterm} LBadJson)")
+                externals[f"e{i}"] = f"ext{i}/doc"
+            elif kind == "undecodable":
+                (d / "modules.json").write_bytes(b"\xff\xfe" + text.encode())
+                srcs.append(f"(SLocal {dirterm} LUndecodable)")
+                externals[f"e{i}"] = f"ext{i}/doc"
+            else:
+                url = f"http://h{i}.example/docs"
+                externals[f"e{i}"] = url
+                if kind == "remote":
+                    payloads[url] = text.encode()
+                    srcs.append(f"(SRemote {cs(url)} (RJson {I.coq_json(desc)}))")
+                else:
+                    payloads[url] = urllib.error.URLError("refused")
+                    srcs.append(f"(SRemote {cs(url)} RUrlError)")
+            metas.append({"kind": kind, "desc": desc})
+        p, outcome = I.load(externals, w.root, payloads or None)
+        term = f"(CLoadSeq [{'; '.join(srcs)}] {I.coq_impl_out(p, outcome, seq=True)})"
+    return term, {"what": "load-seq", "sources": metas, "outcome": outcome}
 
 
 SEGS = ["proc", "type", "module", "interface", "init.html", "init~2.html", "shape_t.html#variable-side",
@@ -329,7 +375,8 @@ def markers_at(target, frag):
 
 
 def e2e_witnesses(chk):
-    """the two recorded findings that exist only end to end, replayed on the working tree"""
+    """regression inputs: the witnesses of the repaired findings, as full FORD runs on the working tree.
+    A defect that comes back is a failing input (the findings are no longer listed as open)."""
     from findings import c16_common as D
     p = D.Pair()
     try:
@@ -337,19 +384,58 @@ def e2e_witnesses(chk):
         if err:
             chk.violation("failing-input", {"what": "FORD failed on the demonstration project A", "error": err}, True)
             return
+        good = (p.root / "A" / "doc" / "modules.json").read_bytes()
+        # (a) [[...]] to an entity of a local-path external
         err, log = p.build_B(D.B_PLAIN.replace("!! module of B", "!! module of B, see [[ma]] and [[ma:solve]]"),
                              "../A/doc")
         chk.count(("witness", "doc-link-local"), sample={"B": "[[ma]] with external: ../A/doc", "error": err})
-        if err and "AttributeError" in err:
+        if err:
             chk.disagreements += 1
-            if not known_once(chk, "doc-link-to-local-external-crashes"):
-                chk.violation("failing-input", {"what": "[[...]] to a local external ends the run", "error": err}, True)
-        elif err:
-            chk.violation("failing-input", {"what": "FORD failed on B", "error": err, "log": log[-1500:]}, True)
+            if not ("AttributeError" in err and known_once(chk, "doc-link-to-local-external-crashes")):
+                chk.violation("failing-input", {"what": "[[...]] to an entity of a local external ends the run",
+                                                "error": err, "log": log[-1500:]}, True)
         else:
-            page = (p.root / "B" / "doc" / "module" / "mb.html").read_text()
-            if not re.search(r"""href=["'][^"']*A/doc/module/ma\.html["'][^>]*>ma</a>""", page):
-                chk.violation("failing-input", {"what": "[[ma]] is not linked to A's module page"}, True)
+            page = (p.root / "B" / "doc" / "module" / "mb.html")
+            hits = [(h, l) for h, l in page_links(page) if l in ("ma", "solve") and "A/doc" in
+                    os.path.normpath(os.path.join(page.parent, h.partition("#")[0]))]
+            targets = {os.path.normpath(os.path.join(page.parent, h.partition("#")[0])) for h, l in hits}
+            want = {str((p.root / "A" / "doc" / "module" / "ma.html").resolve()),
+                    str((p.root / "A" / "doc" / "proc" / "solve.html").resolve())}
+            if not want <= {str(pathlib.Path(x).resolve()) for x in targets}:
+                chk.violation("failing-input", {"what": "[[ma]] / [[ma:solve]] are not linked to A's pages",
+                                                "links": sorted(targets)}, True)
+        # (b) descriptions in a bad state, an absolute path: B must still be built, without the links
+        mj = p.root / "A" / "doc" / "modules.json"
+        for which in ("absolute", "missing", "shape", "shape2", "undecodable"):
+            external = "../A/doc"
+            mj.write_bytes(good)
+            if which == "missing":
+                mj.unlink()
+            elif which == "shape":
+                mj.write_text('{"ford-metadata": {"version": "x"}}')
+            elif which == "shape2":
+                d = json.loads(good)
+                d["modules"].append({"name": "broken", "external_url": "./module/broken.html"})
+                mj.write_text(json.dumps(d))
+            elif which == "undecodable":
+                mj.write_bytes(b"\xff\xfe" + good)
+            else:
+                external = str((p.root / "A" / "doc").resolve())
+            shutil.rmtree(p.root / "B" / "doc", ignore_errors=True)
+            err, log = p.build_B(D.B_PLAIN, external)
+            chk.count(("witness", "load", which), sample={"external state": which, "error": err})
+            page = p.root / "B" / "doc" / "module" / "mb.html"
+            if err or not page.is_file():
+                chk.disagreements += 1
+                chk.violation("failing-input", {"what": f"a description in state '{which}' ends the run of B",
+                                                "error": err, "log": log[-1500:]}, True)
+                continue
+            into_a = [h for h, l in page_links(page) if "A/doc" in h]
+            if which == "absolute" and not into_a:
+                chk.violation("failing-input", {"what": "absolute local path: B has no link into A"}, True)
+            if which != "absolute" and into_a:
+                chk.violation("failing-input", {"what": f"state '{which}': B still links into A (half-loaded "
+                                                        f"description)", "links": into_a}, True)
     finally:
         p.close()
 
@@ -368,7 +454,7 @@ def end_to_end(chk, rng, npairs, nremote):
                 chk.violation("failing-input", {"what": "FORD failed on a valid generated project A", "error": b.err,
                                                 "files": b.files}, True)
                 continue
-            B = G.gen_B(rng, b.A, doc_refs=remote)
+            B = G.gen_B(rng, b.A, doc_refs=True)
             bfiles = G.render_B(B)
             for rel, text in bfiles.items():
                 b.work.write("B/" + rel, text)
@@ -560,6 +646,13 @@ def run(chk):
         cases.append(lc[0])
         meta.append(lc[1])
         chk.count(("load", lc[0]), nontrivial=True, sample=None)
+    for k in range(len(corpus.get("seq", [])) + (40 if quick else 600)):
+        lc = load_seq_case(rng, descriptions, corpus["seq"][k] if k < len(corpus.get("seq", [])) else None)
+        if lc is None:
+            continue
+        cases.append(lc[0])
+        meta.append(lc[1])
+        chk.count(("load-seq", lc[0]), nontrivial=True)
     # (3) the two re-basing primitives
     for term, m in join_cases(rng, 250 if quick else 5000):
         cases.append(term)
@@ -610,6 +703,12 @@ def replay(chk, rep):
         res = chk.coq_judge(IMPORTS, "case", "judge", [lc[0]])
         print("judge code:", res)
         return 1 if res and any(c & 1 or (c & 2 and not c >> 2) for c in res.values()) else 0
+    if what == "load-seq":
+        lc = load_seq_case(None, [], rep["sources"])
+        print("outcome:", lc[1]["outcome"])
+        res = chk.coq_judge(IMPORTS, "case", "judge", [lc[0]])
+        print("judge code:", res)
+        return 1 if res else 0
     if what == "join":
         res = chk.coq_judge(IMPORTS, "case", "judge",
                             [f"(CJoin ({'BLocal' if rep['base'].startswith('/') else 'BRemote'} {cs(rep['base'])}) "
